@@ -80,6 +80,33 @@ CHECKS.update({
                 note="Trusted: virtual time (ckb-systemtime faketime). Concurrency defects of HeaderMap and one InflightBlocks defect are known findings."),
 })
 
+CHECKS.update({
+    "C04": dict(engine="tx", category="exploration", design="4/C04",
+                technique="runtime monitoring: candidate transactions with model-computed thresholds judged by the real pool (test_accept_tx) and the real chain service (single-tx block) on nodes that reached the same context through different delivery orders",
+                text="Generated chain contexts (tiny epochs of several lengths, windows, forks, uncles) x ~40 candidate transactions per context: valid bases and single-rule violations (dead / unknown / duplicate / side-branch inputs, dead / unknown / duplicate cell deps, dep groups with live members / malformed data, header deps on the main chain / side branch / unknown / duplicate, capacity overflow by one shannon and output one shannon below occupied, since absolute/relative x block/epoch/timestamp exactly at the threshold and one unit early, malformed since encodings, cellbase exactly mature / one block early, always_failure lock / type, secp256k1 valid / corrupted signature). Thresholds for the commit position come from the RefChain model (block numbers, epoch fractions, past medians, cellbase positions). Each candidate is judged alone in a block at the commit position and by the pool at the tip; expected verdicts come from construction. Soundness: whatever the pool accepts must be valid in the next block. History independence: the verdict vector of a node that received everything in reverse (orphan-first) order must equal the direct node's.",
+                note="Trusted: single-rule construction of candidates; bundled always_success / always_failure / secp256k1 binaries. The pool's conservative commit-position estimate is honoured: pool expectations are only set where it cannot matter."),
+    "C14": dict(engine="tx", category="exploration", design="4/C14",
+                technique="runtime monitoring: differential between a warm node with default caches and a node with store caches of size 0/1 whose verification cache is cleared before every event; repeated events on the warm node (cache hits)",
+                text="The C04 candidate/event sequence is replayed on a warm node and on a cold node (StoreConfig cache sizes 0 or 1, txs_verify_cache cleared before every event): pool and block verdicts, recorded fees / cycles / sizes (BlockExt) and the chain answer vector (blocks, headers, transactions, cells of the whole context) must be identical; every event is repeated on the warm node after the verification cache has been filled by the pool and block paths (context-dependent candidates: since, maturity, liveness must still be refused); a block carrying a transaction with a corrupted signature after its valid twin (same tx hash, different witness) was cached must be refused.",
+                note="Trusted: an LRU of capacity 0 disables a cache (measured, DESIGN section 9)."),
+    "C05": dict(engine="script", category="exploration", design="4/C05",
+                technique="runtime monitoring: differential of chunked / signalled executions of the real ckb-script scheduler against the uninterrupted run of the same transaction; pause points recorded through hook H6",
+                text="For every (transaction, VM version) of a corpus of bundled and test-vector scripts (spawn/pipe/exec trees, syscalls, load-cell loops, always_success, secp256k1) the uninterrupted verify(unlimited) gives the reference verdict and cycles C. resumable_verify / resume_from_state under constant, growing, windowed and random per-chunk limits, complete() from every intermediate state, budgets C-1 / C / C+k, and resumable_verify_with_signal under seeded Suspend/Resume/Stop sequences must give the same verdict and C, never succeed with less than C, never consume more than C in total.",
+                note="Trusted: the uninterrupted run as the reference (C03/C04 check its verdict against construction). Scheduler iteration-accounting defects with several VMs are known findings."),
+    "C09": dict(engine="freezer", category="fault_enumeration", design="4/C09",
+                technique="runtime monitoring under injected faults: the real ckb-freezer against a Vec<Vec<u8>> model; crash states enumerated as every (data-file cut, index-file cut) pair after every operation, then reopened through the production open path",
+                text="Random and directed histories of append / truncate / retrieve / reopen on FreezerFiles and Freezer with tiny max file sizes (roll-over at every position, empty items, items larger than a file). After every operation the directory is copied and every byte cut of the head data file combined with every cut of the index file (all positions in thorough, strided in quick) is reopened: open must succeed or fail cleanly, the recovered item count is a prefix of the model containing every item acknowledged before the last sync, every retrievable item is byte-identical to the model, appends after recovery keep all of it.",
+                note="Trusted: the file system keeps synced bytes and truncates files at a byte position (no torn sectors, no reordering across fsync)."),
+    "C06": dict(engine="econ", category="exploration", design="4/C06",
+                technique="runtime monitoring: offline checker with exact integer arithmetic (oracles/econ.py, written from the RFCs) over the recorded block log of generated histories on a real node, on every fork",
+                text="Histories with random fees, proposers spread over main-chain blocks and uncles, re-proposals inside the window, several epoch lengths with remainder rewards, NervosDAO deposits / withdraw phases 1 and 2, forks and truncations are generated on a real node; every block ever accepted (on every fork) is exported and the Python checker recomputes primary / secondary issuance, the committer and proposer shares per fee (earliest proposer, each share paid once), the cellbase amount and lock, every DAO field component (C, AR, S, U) from the parent's, U against the occupied capacity of the replayed live-cell set, and withdrawal maxima; compared with the recorded cellbase outputs, headers and BlockExt fees.",
+                note="Trusted: the RFC formulas as transcribed in oracles/econ.py; block template numbers come from production calculators but are only inputs to be judged. One consensus-affecting defect (proposer share of block #1) is a known finding."),
+    "C18": dict(engine="indexer", category="exploration", design="4/C18",
+                technique="runtime monitoring: the real ckb-indexer (hook H8) following a builder node through reorgs exactly as IndexerSyncService decides; every RPC answer compared with a direct filter over a model folded from the harness's own block copies; byte dump of the index before append vs after rollback",
+                text="Generated histories with reorgs, shared / prefix-related lock and type scripts, cells created and consumed in the same block, pruning (keep_num / prune_interval) are followed by the real Indexer through append / rollback; at tips and after steps, generated search keys (lock / type, prefix / exact, filter script, script_len / data / data_len / capacity / block ranges, asc / desc, page sizes and cursors, grouped transactions) are answered by IndexerHandle::{get_cells, get_transactions, get_cells_capacity, get_indexer_tip} and by the model; rollback of the last block must restore the raw key-value dump taken before it was appended (within retention).",
+                note="Trusted: the documented RPC semantics ([inclusive, exclusive) ranges, prefix default). The rich-indexer (SQL) is not covered: it needs a sqlite/async hook that was not added. Prefix searches with args ending in zero bytes are a known finding."),
+})
+
 NOT_YET = "check under construction (DESIGN.md section 4); not claimed yet"
 
 checks = []
